@@ -127,10 +127,10 @@ func compareGeom(want, got []c10.Trace, tol float64) (string, float64) {
 		}
 		h := c10.Hausdorff(want[i:i+1], got[i:i+1])
 		worst = math.Max(worst, h)
-		if h > tol {
+		if !(h <= tol) {
 			return fmt.Sprintf("subpath %d: Hausdorff distance %.3g", i, h), h
 		}
-		if d := normalizedDeviation(want[i], got[i]); d > DirSlack*tol {
+		if d := normalizedDeviation(want[i], got[i]); !(d <= DirSlack*tol) {
 			return fmt.Sprintf("subpath %d: not traversed in the same direction/order (deviation %.3g at equal length fractions)", i, d), d
 		}
 	}
@@ -313,7 +313,7 @@ func matchPDF(sps []oracle.Subpath, got []c10.RSub, tol float64) (msg string, ma
 		if a[i].Closed != b[i].Closed {
 			return fmt.Sprintf("subpath %d: closed=%v became closed=%v", i, a[i].Closed, b[i].Closed), true, 0
 		}
-		if a[i].Start.Dist(b[i].Start) > tol {
+		if !(a[i].Start.Dist(b[i].Start) <= tol) {
 			return fmt.Sprintf("subpath %d starts at (%g,%g) instead of (%g,%g)", i, b[i].Start.X, b[i].Start.Y, a[i].Start.X, a[i].Start.Y), true, 0
 		}
 		j := 0
@@ -328,7 +328,7 @@ func matchPDF(sps []oracle.Subpath, got []c10.RSub, tol float64) (msg string, ma
 				if g.Kind != oracle.CmdLine && g.Kind != oracle.CmdClose {
 					return "", false, 0
 				}
-				if g.P1.Dist(s.P1) > tol {
+				if !(g.P1.Dist(s.P1) <= tol) {
 					return fmt.Sprintf("subpath %d segment %d: line ends at (%g,%g) instead of (%g,%g)", i, k, g.P1.X, g.P1.Y, s.P1.X, s.P1.Y), true, 0
 				}
 				j++
@@ -338,7 +338,7 @@ func matchPDF(sps []oracle.Subpath, got []c10.RSub, tol float64) (msg string, ma
 					return "", false, 0
 				}
 				for t := 0; t <= 8; t++ {
-					if d := s.At(float64(t) / 8).Dist(g.Seg.At(float64(t) / 8)); d > tol {
+					if d := s.At(float64(t) / 8).Dist(g.Seg.At(float64(t) / 8)); !(d <= tol) {
 						return fmt.Sprintf("subpath %d segment %d: Bézier deviates by %.3g at t=%g", i, k, d, float64(t)/8), true, 0
 					}
 				}
@@ -368,7 +368,7 @@ func matchPDF(sps []oracle.Subpath, got []c10.RSub, tol float64) (msg string, ma
 						rho := math.Hypot(rx*ux/rad, ry*uy/rad)
 						dev := math.Abs(rad-1) * rho
 						worstArc = math.Max(worstArc, dev/rmax)
-						if dev > PDFArcTol*rmax+tol {
+						if !(dev <= PDFArcTol*rmax+tol) {
 							return fmt.Sprintf("subpath %d segment %d: Bézier piece is %.3g away from the arc's ellipse (radii %g,%g)", i, k, dev, rx, ry), true, worstArc
 						}
 						// progress: angle from the start angle in sweep direction, unwrapped near prev
@@ -391,7 +391,7 @@ func matchPDF(sps []oracle.Subpath, got []c10.RSub, tol float64) (msg string, ma
 						if j < len(gs) && gs[j].Kind == oracle.CmdLine && gs[j].P0.Dist(gs[j].P1) <= tol+PDFArcTol*rmax && gs[j].P1.Dist(s.P1) <= tol {
 							j++
 						}
-					} else if prev > math.Abs(dth)+0.05 {
+					} else if !(prev <= math.Abs(dth)+0.05) {
 						return fmt.Sprintf("subpath %d segment %d: Bézier pieces overshoot the arc (%.6g of %.6g rad)", i, k, prev, math.Abs(dth)), true, worstArc
 					}
 				}
